@@ -15,7 +15,8 @@
   not be cross-checked against a quotation in the repository are tagged `-- unverified transcription`.
 
   The decision functions of VModel.Auth (`Ctx.allowed` and everything below it) are NOT used here; only decoders,
-  `Ctx` fields, and the three C08 level predicates (`checkEventLevels`, `checkUserLevels`, `checkNotificationLevels`).
+  `Ctx` fields, and two C08 level predicates (`checkEventLevels`, `checkUserLevels`; the notification rule and the
+  integer-only rule of version 10 are written out here: `ruleNotifications`, `integerContent`).
   Core Lean only.
 -/
 import VModel.Auth
@@ -189,11 +190,14 @@ def thirdPartyKeys (p : Provider) (nm : MemberContent) : Option Nat :=
 
 /-- The power level of a user: creators of a v12 room have 2^53; without a power-levels event the create event's
     sender has 2^53−1 (D2; spec: 100) and everyone else 0; otherwise `users[u]`, else `users_default`. -/
-def powerOf (d : Departures) (c : Ctx) (u : Bytes) : Int :=
-  if c.privilegedCreators && c.creators.contains u then creatorPowerLevel
+def powerOfWith (priv : Bool) (d : Departures) (c : Ctx) (u : Bytes) : Int :=
+  if priv && c.creators.contains u then creatorPowerLevel
   else if c.plEvent.isSome then c.pl.userLevel u
   else if c.createEvent.map (·.sender) == some u then (if d.d2_creatorMaxLevel then creatorPowerLevel - 1 else 100)
   else 0
+
+/-- … with "creators are privileged" decided by the room version of the create event the auth events hold -/
+def powerOf (d : Departures) (c : Ctx) (u : Bytes) : Int := powerOfWith c.privilegedCreators d c u
 
 /-- rule 8's required level: `events[type]`, else state_default / events_default; rule 7: m.room.third_party_invite needs
     the invite level -/
@@ -388,7 +392,8 @@ def ruleInvite (d : Departures) (i : MemberInputs) : Bool :=
 
 def ruleLeave (d : Departures) (i : MemberInputs) : Bool :=
   if i.selfSent then                                                -- 5.5.1
-    i.old.membership == b!"invite" || i.old.membership == b!"join" || i.old.membership == b!"knock"
+    i.old.membership == b!"invite" || i.old.membership == b!"join"
+    || (i.sv.knock && i.old.membership == b!"knock")                -- [v7+] a knock can be rescinded
     || (d.d1_selfLeaveLeave && i.old.membership == b!"leave")       -- D1
   else
     i.snd.membership == b!"join"                                    -- 5.5.2
@@ -451,13 +456,53 @@ def ruleMember (d : Departures) (c : Ctx) (p : Provider) (sv : SpecVersion) (e :
 
 /-! ## Rule 10: m.room.power_levels (the C08 predicates) -/
 
-/-- the proposed content: [v10+] integers only; before, D15: Python `int()` coercion of strings / floats -/
-def newPowerLevels (d : Departures) (e : Event) : Option PowerLevels :=
-  if d.d15_pythonInt then
+/-- an integer literal: optional sign, digits only (no fraction, no exponent, not a string, not `null`), within the
+    64-bit range -/
+def isIntegerLiteral (v : JVal) : Bool :=
+  match v with
+  | .num lit => (parseInt64 lit).isSome
+  | _ => false
+
+/-- the seven named levels of a power-levels content -/
+def namedLevelKeys : List Bytes :=
+  [b!"ban", b!"invite", b!"kick", b!"redact", b!"users_default", b!"events_default", b!"state_default"]
+
+/-- an object all of whose values are integer literals -/
+def isIntegerMap (v : JVal) : Bool :=
+  match v with
+  | .obj m => m.all (fun kv => isIntegerLiteral kv.2)
+  | _ => false
+
+/-- 10.1 / 10.2 / 10.3 [v10+], written on the raw content, independently of any parser: each of the named levels, if
+    present, is an integer literal; `users`, `events`, `notifications`, if present, are objects all of whose values are
+    integer literals.  (`null` is not an integer and not an object.  "Present" is as encoding/json reads a member:
+    `lookupField`.) -/
+def integerContent (c : Option JVal) : Bool :=
+  match contentFields c with
+  | none => false
+  | some kvs =>
+    namedLevelKeys.all (fun k => match lookupField kvs k with
+      | none => true
+      | some v => isIntegerLiteral v)
+    && [b!"users", b!"events", b!"notifications"].all (fun k => match lookupField kvs k with
+      | none => true
+      | some v => isIntegerMap v)
+
+/-- the proposed content: [v10+] integers only (`integerContent`); before, D15: Python `int()` coercion of strings / floats -/
+def newPowerLevels (d : Departures) (sv : SpecVersion) (e : Event) : Option PowerLevels :=
+  if sv.integerLevels && !integerContent e.content then none
+  else if d.d15_pythonInt then
     (match powerLevelsFromEvent e with
      | .ok pl => some pl
      | .error _ => none)
   else parseIntegerPowerLevels e.content PowerLevels.defaults
+
+/-- a power-levels AUTH event the rules cannot read (10.1–10.3 fail for it, or its room version is unknown): nothing can
+    be authorised against it -/
+def plAuthEventUnusable (d : Departures) (ev : Event) : Bool :=
+  match specVersion? ev.ver with
+  | none => true
+  | some sv => (newPowerLevels d sv ev).isNone
 
 /-- strict localpart grammar (D8 off) -/
 def strictLocalpart (l : Bytes) : Bool :=
@@ -513,10 +558,13 @@ def ruleLevelChanges (d : Departures) (L : Int) (c : Ctx) (e : Event) (old new :
   else namedLevelsTextual L c e old new && eventEntriesTextual L old new
 
 /-- 10.6 / 10.7 for `notifications` [v6+] (D11: old value ≥ sender's level refused; spec: >) -/
-def ruleNotifications (d : Departures) (sender : Bytes) (old new : PowerLevels) : Bool :=
-  if d.d11_notificationsGE then checkNotificationLevels sender old new
+def ruleNotifications (d : Departures) (L : Int) (old new : PowerLevels) : Bool :=
+  if d.d11_notificationsGE then
+    (notificationKeys old new).all (fun k =>
+      let o := old.notificationLevel k
+      let n := new.notificationLevel k
+      o == n || (decide (n ≤ L) && decide (o < L)))
   else
-    let L := old.userLevel sender
     (notificationKeys old new).all (fun k =>
       let o := old.notificationLevel k
       let n := new.notificationLevel k
@@ -528,7 +576,7 @@ def ruleNoCreatorInUsers (c : Ctx) (new : PowerLevels) : Bool :=
 
 def rulePowerLevels (d : Departures) (c : Ctx) (p : Provider) (sv : SpecVersion) (e : Event) : Bool :=
   ruleCommon d c p e                                                 -- 3, m.federate, 6, 8, 9
-  && (match newPowerLevels d e with                                  -- 10.1, 10.2 [v10+ integers]
+  && (match newPowerLevels d sv e with                               -- 10.1, 10.2 [v10+ integers]
       | none => false
       | some new =>
         let L := powerOf d c e.sender
@@ -536,8 +584,15 @@ def rulePowerLevels (d : Departures) (c : Ctx) (p : Provider) (sv : SpecVersion)
         && (!sv.creators || ruleNoCreatorInUsers c new)              -- [v12]
         && ((!d.d3_effectiveValues && c.plEvent.isNone)              -- 10.4 no previous power levels: allow (D3: compared with the defaults)
             || (ruleLevelChanges d L c e c.pl new                    -- 10.5–10.7
-                && (!sv.notifications || ruleNotifications d e.sender c.pl new)   -- [v6+]
+                && (!sv.notifications                                -- [v6+]; the sender's level incl. [v12] creators
+                    || ruleNotifications d (powerOfWith sv.creators d c e.sender) c.pl new)
                 && checkUserLevels L e.sender c.pl new)))            -- 10.8, 10.9
+
+/-- the auth events hold a power-levels event the rules cannot read -/
+def plUnusable (d : Departures) (p : Provider) : Bool :=
+  match p.powerLevels with
+  | some ev => plAuthEventUnusable d ev
+  | none => false
 
 /-! ## Rule 11: m.room.redaction -/
 
@@ -561,13 +616,20 @@ def ruleRedaction (d : Departures) (c : Ctx) (p : Provider) (e : Event) : Bool :
 
 /-! ## Dispatch -/
 
-def rulesDecision (d : Departures) (c : Ctx) (p : Provider) (sv : SpecVersion) (e : Event) (sig3pid : Bool) : Bool :=
-  if e.type == b!"m.room.create" then ruleCreate d sv e                                   -- 1
-  else if e.type == b!"m.room.aliases" && aliasesRuleApplies d sv then ruleAliases d c e  -- 4
-  else if e.type == b!"m.room.member" then ruleMember d c p sv e sig3pid                  -- 5
+/-- the rules that compare with the room's power levels: 5, 10, 11 and 6–9 / 12 -/
+def rulesDecisionPL (d : Departures) (c : Ctx) (p : Provider) (sv : SpecVersion) (e : Event) (sig3pid : Bool) : Bool :=
+  if e.type == b!"m.room.member" then ruleMember d c p sv e sig3pid                       -- 5
   else if e.type == b!"m.room.power_levels" then rulePowerLevels d c p sv e               -- 10
   else if e.type == b!"m.room.redaction" then ruleRedaction d c p e                       -- 11
   else ruleCommon d c p e                                                                 -- 6–9, 12
+
+def rulesDecision (d : Departures) (c : Ctx) (p : Provider) (sv : SpecVersion) (e : Event) (sig3pid : Bool) : Bool :=
+  if e.type == b!"m.room.create" then ruleCreate d sv e                                   -- 1
+  else if e.type == b!"m.room.aliases" && aliasesRuleApplies d sv then ruleAliases d c e  -- 4
+  -- every other rule compares with the room's power levels.  The defaults apply when the power-levels event is
+  -- ABSENT; one that is present but unreadable licenses nothing
+  else if plUnusable d p then false
+  else rulesDecisionPL d c p sv e sig3pid
 
 /-! ## The modelled domain -/
 
